@@ -395,6 +395,16 @@ impl VarsWorld {
         self.dead = true;
         self.explain = format!("PANIC in {what} at {}: {}", p.short_location(), p.first_line());
         vs.push(v("C08.panic", format!("{what}@{}", p.short_location()), format!("{what} panicked at {}: {}", p.short_location(), p.first_line())));
+        // site `dropped` is also a drop-order scenario (C12): the closure owning the last Var handle is
+        // freed by the engine in the middle of a stabilise, possibly with a deferred write pending
+        if self.prog.site == Site::Dropped {
+            vs.push(Violation::new(
+                "C12",
+                "C12.panic",
+                format!("var-handle-dropped-during-stabilise:{what}@{}", p.short_location()),
+                format!("the last handle of a variable was dropped (with its owning closure) during a stabilise and {what} panicked at {}: {}", p.short_location(), p.first_line()),
+            ));
+        }
     }
 
     /// reads judged after every action that leaves the engine outside stabilise
